@@ -85,4 +85,3 @@ func (s *Session) Lines() (out []string) {
 	}
 	return
 }
-
